@@ -45,14 +45,14 @@ Qed.
 (* ---- .got ---- *)
 Lemma got_step f args stk g b1 d :
   Forall (load_ok f) (ref_phdrs f) ->
-  0 <= sh_addr g -> 0 <= sh_size g -> got_hi g <= img_end (ref_phdrs f) ->
-  (forall s, stk = Some s -> 0 <= sh_addr s) ->
+  0 <= sh_addr g -> 0 <= sh_size g -> got_hi g <= extent (ref_phdrs f) ->
+  (forall s, stk = Some s -> 0 <= sh_addr s /\ extent (ref_phdrs f) <= img_end (ref_phdrs f)) ->
   (forall j, 0 <= j -> sget d j = xdram f args None stk j) ->
   exists d', relocate_got (bset_dram d b1) (OFF + sh_addr g) (Z.to_nat (sh_size g / 4)) = Some (bset_dram d' b1) /\
     forall j, 0 <= j -> sget d' j = xdram f args (Some g) stk j.
 Proof.
   intros Hloads Ha Hs Hhi Hstk Hd.
-  pose proof (img_end_le_top f _ Hloads) as Htop.
+  pose proof (extent_le_top f _ Hloads) as Htop.
   assert (Hgh : got_hi g = sh_addr g + 4 * Z.of_nat (Z.to_nat (sh_size g / 4))) by (unfold got_hi; lia).
   destruct (relocate_got_spec (Z.to_nat (sh_size g / 4)) (bset_dram d b1) (OFF + sh_addr g)) as [d' [Hr Hd']].
   { rewrite OFF_val. lia. } { lia. }
@@ -65,7 +65,7 @@ Proof.
     assert (Hone : forall k, 0 <= k <= 3 -> sget d (e + k) = file_byte f (ref_phdrs f) (e - OFF + k)).
     { intros k Hk. rewrite Hd by (rewrite OFF_val in *; lia).
       destruct stk as [s|].
-      - rewrite xdram_stack. cbv zeta. pose proof (block_above_image f s (Hstk s eq_refl)).
+      - rewrite xdram_stack. cbv zeta. pose proof (block_above_image f s (proj1 (Hstk s eq_refl))). pose proof (proj2 (Hstk s eq_refl)).
         replace ((argv_at (ref_phdrs f) s - DRAM_START <=? e + k) && _) with false by bfalse.
         replace (OFF <=? e + k) with true by lia. unfold image_byte. f_equal. lia.
       - rewrite xdram_nostack. replace (OFF <=? e + k) with true by lia. unfold image_byte. f_equal. lia. }
@@ -83,7 +83,7 @@ Proof.
       replace (sh_addr g + 4 * ((j - OFF - sh_addr g) / 4)) with (e - OFF) by (subst e; lia).
       replace ((j - OFF - sh_addr g) mod 4) with ((j - (OFF + sh_addr g)) mod 4) by (f_equal; lia). reflexivity. }
     destruct stk as [s|].
-    + rewrite xdram_stack. cbv zeta. pose proof (block_above_image f s (Hstk s eq_refl)).
+    + rewrite xdram_stack. cbv zeta. pose proof (block_above_image f s (proj1 (Hstk s eq_refl))). pose proof (proj2 (Hstk s eq_refl)).
       replace ((argv_at (ref_phdrs f) s - DRAM_START <=? j) && _) with false by bfalse.
       replace (OFF <=? j) with true by lia. now rewrite Himg.
     + rewrite xdram_nostack. replace (OFF <=? j) with true by lia. now rewrite Himg.
@@ -97,8 +97,8 @@ Qed.
 
 (* ---- .stack ---- *)
 Lemma image_byte_above f got a :
-  Forall (load_ok f) (ref_phdrs f) -> (forall g, got = Some g -> got_hi g <= img_end (ref_phdrs f)) ->
-  img_end (ref_phdrs f) <= a -> image_byte f (ref_phdrs f) got a = 0.
+  Forall (load_ok f) (ref_phdrs f) -> (forall g, got = Some g -> got_hi g <= extent (ref_phdrs f)) ->
+  extent (ref_phdrs f) <= a -> image_byte f (ref_phdrs f) got a = 0.
 Proof.
   intros Hl Hg Ha. unfold image_byte. destruct got as [g|]; [|now apply file_byte_above].
   specialize (Hg g eq_refl). replace ((got_lo g <=? a) && (a <? got_hi g)) with false by bfalse. now apply file_byte_above.
@@ -106,14 +106,15 @@ Qed.
 
 Lemma stack_step f args got s b1 d :
   Forall (load_ok f) (ref_phdrs f) ->
-  0 <= sh_addr s -> (forall g, got = Some g -> got_hi g <= img_end (ref_phdrs f)) ->
+  0 <= sh_addr s -> (forall g, got = Some g -> got_hi g <= extent (ref_phdrs f)) ->
+  extent (ref_phdrs f) <= img_end (ref_phdrs f) ->
   argv_at (ref_phdrs f) s - DRAM_START + Z.of_nat (length (arg_block (argv_at (ref_phdrs f) s) (argv_words args))) <= DRAM_SIZE ->
   (forall j, 0 <= j -> sget d j = xdram f args got None j) ->
   exists d', put_args (bset_dram d b1) (argv_at (ref_phdrs f) s)
                       (argv_at (ref_phdrs f) s + 4 * (Z.of_nat (length (argv_words args)) + 1)) (argv_words args) = Some (bset_dram d' b1) /\
     forall j, 0 <= j -> sget d' j = xdram f args got (Some s) j.
 Proof.
-  intros Hl Ha Hg Hfit Hd.
+  intros Hl Ha Hg Hext Hfit Hd.
   pose proof (block_above_image f s Ha) as Hab. pose proof (img_end_nonneg (ref_phdrs f)) as Hin.
   rewrite length_arg_block in Hfit. pose proof (strs_len_nonneg (argv_words args)) as Hsn.
   destruct (arg_block_dram (argv_words args) (bset_dram d b1) (argv_at (ref_phdrs f) s)) as [d' [Hp Hd']].
@@ -191,8 +192,9 @@ Record WFacts (f args : list Z) : Prop := {
   wf_u_got : (count_named f n_got <= 1)%nat;
   wf_u_stack : (count_named f n_stack <= 1)%nat;
   wf_u_sym : (count_named f n_symtab <= 1)%nat;
-  wf_got : forall g, find_sec f n_got = Some g -> got_hi g <= img_end (ref_phdrs f) /\ BASE + sh_addr g < 4294967296;
+  wf_got : forall g, find_sec f n_got = Some g -> got_hi g <= extent (ref_phdrs f) /\ BASE + sh_addr g < 4294967296;
   wf_stack : forall s, find_sec f n_stack = Some s ->
+      extent (ref_phdrs f) <= img_end (ref_phdrs f) /\
       8 <= stack_end (ref_phdrs f) s /\
       argv_at (ref_phdrs f) s - DRAM_START + Z.of_nat (length (arg_block (argv_at (ref_phdrs f) s) (argv_words args))) <= DRAM_SIZE;
   wf_sym : forall sy, find_sec f n_symtab = Some sy ->
@@ -253,10 +255,10 @@ Proof.
   intros W Hsplit Hnm [[d [Hbus Hd]] [Her Hex]].
   assert (Hin : In sh (ref_shdrs f)) by (rewrite Hsplit; apply in_or_app; right; left; reflexivity).
   destruct (shdr_fields_nonneg f sh (wf_bytes _ _ W) Hin) as (Hn0 & Ha0 & Ho0 & Hs0 & Hl0).
-  assert (Hstk_nonneg : forall s, flagged f n_stack P = Some s -> 0 <= sh_addr s).
-  { intros s Hs. apply flagged_in in Hs. apply find_sec_in in Hs. destruct Hs as [Hs _].
+  assert (Hstk_nonneg : forall s, flagged f n_stack P = Some s -> 0 <= sh_addr s /\ extent (ref_phdrs f) <= img_end (ref_phdrs f)).
+  { intros s Hs. apply flagged_in in Hs. split; [|apply (wf_stack _ _ W s Hs)]. apply find_sec_in in Hs. destruct Hs as [Hs _].
     apply (shdr_fields_nonneg f s (wf_bytes _ _ W) Hs). }
-  assert (Hgot_hi : forall g, flagged f n_got P = Some g -> got_hi g <= img_end (ref_phdrs f)).
+  assert (Hgot_hi : forall g, flagged f n_got P = Some g -> got_hi g <= extent (ref_phdrs f)).
   { intros g Hg. apply flagged_in in Hg. apply (wf_got _ _ W g Hg). }
   unfold do_section.
   destruct (bytes_eq nm n_got) eqn:Egot.
@@ -286,12 +288,12 @@ Proof.
     apply bytes_eq_eq in Estk. subst nm.
     assert (Fg : flagged f n_got (P ++ [sh]) = flagged f n_got P) by (apply flagged_other; rewrite (name_is_sec f _ sh _ Hnm); reflexivity).
     assert (Fy : flagged f n_symtab (P ++ [sh]) = flagged f n_symtab P) by (apply flagged_other; rewrite (name_is_sec f _ sh _ Hnm); reflexivity).
-    destruct (wf_stack _ _ W sh Ffind) as [H8 Hfit].
+    destruct (wf_stack _ _ W sh Ffind) as (Hext & H8 & Hfit).
     rewrite Hbus. cbv zeta.
     rewrite image_end_img_end. change SIZE_OF_TCB with TCB. rewrite argv_words_model.
     change (align4 (PROGRAM_START_ADDR + img_end (ref_phdrs f) + sh_addr sh + 3)) with (stack_end (ref_phdrs f) sh).
     change (align4 (stack_end (ref_phdrs f) sh + TCB + 3)) with (argv_at (ref_phdrs f) sh).
-    destruct (stack_step f args (flagged f n_got P) sh b1 d (wf_loads _ _ W) Ha0 Hgot_hi Hfit) as [d' [Hp Hd']].
+    destruct (stack_step f args (flagged f n_got P) sh b1 d (wf_loads _ _ W) Ha0 Hgot_hi Hext Hfit) as [d' [Hp Hd']].
     { intros j Hj. rewrite Hd by lia. unfold Xp. rewrite Fold. apply x_dram_xdram. }
     rewrite Hp. eexists. split; [reflexivity|].
     unfold Inv, Xp. rewrite Fnew, Fg, Fy. cbn [l_bus l_er l_exit].
@@ -362,8 +364,7 @@ Lemma wf_unpack f args : wf_elf f args = true ->
   e_shstrndx (ref_ehdr f) < e_shnum (ref_ehdr f) /\
   forallb (fun sh => match sec_name f sh with Some s => graphic_name s | None => false end) (ref_shdrs f) = true /\
   forallb (fun ph => negb (is_load ph) ||
-        ((p_offset ph + p_filesz ph <=? flen f) && (p_filesz ph <=? p_memsz ph) && (p_vaddr ph + p_memsz ph <=? DRAM_SIZE - (BASE - DRAM_START))
-         && (p_paddr ph =? p_vaddr ph))) (ref_phdrs f) = true /\
+        ((p_offset ph + p_filesz ph <=? flen f) && (p_filesz ph <=? p_memsz ph) && (p_vaddr ph + p_memsz ph <=? DRAM_SIZE - (BASE - DRAM_START)))) (ref_phdrs f) = true /\
   disjoint_loads (ref_phdrs f) = true /\
   WFacts f args.
 Proof.
@@ -424,7 +425,7 @@ Proof.
   rewrite slice_from_ok by lia.
   destruct (phdrs_at f) as [rest2 Hpht]; [lia|lia|lia|]. rewrite Hpht.
   assert (Hsegok : Forall (seg_ok f) (ref_phdrs f)).
-  { pose proof (wf_loads _ _ W) as Hl. rewrite Forall_forall in *. intros ph Hin Hld. destruct (Hl ph Hin Hld) as (H1 & H2 & H3 & H4).
+  { pose proof (wf_loads _ _ W) as Hl. rewrite Forall_forall in *. intros ph Hin Hld. destruct (Hl ph Hin Hld) as (H1 & H2 & H3).
     assert (Hr : 0 <= p_offset ph /\ 0 <= p_vaddr ph /\ 0 <= p_filesz ph).
     { unfold ref_phdrs in Hin. apply in_map_iff in Hin. destruct Hin as [k [<- _]]. unfold ref_phdr. cbn [p_offset p_vaddr p_filesz].
       repeat split; apply at32_range; assumption. }
